@@ -25,6 +25,10 @@ pub mod response;
 mod connection;
 mod parser;
 
+#[cfg(feature = "verif-hooks")]
+#[doc(hidden)]
+pub mod verif_hooks;
+
 use std::{error::Error, fmt, io};
 
 #[cfg(feature = "async")]
